@@ -1427,6 +1427,18 @@ func ruleTrimOneEOL(c *core.Ctx) {
 			if obj == nil {
 				continue
 			}
+			// the number of bytes the probe returned is not the extent
+			isProbeResult := false
+			if pas, ok := probeV.AST.(*ast.AssignStmt); ok {
+				for _, l := range pas.Lhs {
+					if core.ObjOf(info, l) == obj {
+						isProbeResult = true
+					}
+				}
+			}
+			if isProbeResult {
+				continue
+			}
 			if length != nil && length != obj {
 				core.Undecided("two different variables are shortened after the probe")
 			}
